@@ -87,6 +87,28 @@ CLAIMS["C20"] = ("effect/alias analysis of the raw trace dictionaries with a mut
     "Decides: every mutation site on an object derived from the parsed source file in the writer paths is on the whitelist (append/extend traceEvents, args.critical marker, distributedInfo rank, replacement only under only_show_critical_events) and the object written is the object read; the reader returns a fresh parse on every call (no cache to leak earlier mutations); markers are set for positions in critical_path_events_set, flow pairs are built per critical edge from (begin node, its event) / (end node, its event) with one id per edge on the events' pid/tid, the zero-weight filter applies to the show-all view only; every reader and writer chooses gzip by the suffix and output names keep the suffix; the rank regex matches what every json.dump(s) on the write path produces.",
     "3/C20")
 
+STATELESS = (" Also decides the effect clauses shared by the analyzer properties (sa/specs/discipline.py): no function of the analyzer module stores into a module- or class-level container, "
+             "none modifies the caller's Trace object graph through a parameter, an alias or a shallow copy, no per-rank loop latches a value computed from the first rank's data, "
+             "and memoising decorators are limited to a confirmed table.")
+# additions of round 3 (appended to the claim text)
+EXTRA = {
+ "C01": " Also: a rank's frame and metadata come from THAT rank's file (pool inputs and result pairing built from the same rank list; sequential and single-rank paths store under the rank whose file was parsed).",
+ "C02": " Also: the links written at parse time survive the only later row removal - the per-rank trim keeps a device activity iff its launch call is kept, and its host side / device side are complementary on a 27-row abstract grid including the synchronisation names.",
+ "C04": STATELESS + " The interval-union instantiation read out of the code is additionally validated against a brute-force union on every family of <= 3 (thorough: <= 4) small integer intervals by a concrete term interpreter (template validation; the repository code is not run).",
+ "C05": STATELESS, "C06": STATELESS, "C08": STATELESS, "C10": STATELESS, "C15": STATELESS, "C17": STATELESS,
+ "C07": STATELESS + " Thorough tier: the reference sweep (the checker's own pandas text) is validated against the brute-force overlap ratio on 5084 small cases.",
+ "C09": STATELESS + " Also: the longest-path search ranges over every node (no restricted topo_order).",
+ "C11": " Also: cached Series views of the table are rebuilt unless the append-only table's length equals the view's length and are read only after the refresh; the per-file encoding hands out ids read from the table's own id map; the rank/file association of the worker pool.",
+ "C12": " Also: host side and device side of the trim are complementary on a 27-row abstract grid.",
+ "C13": " Also: typestate build thread trees -> link threads -> publish node attributes -> normalise, with tree mutators found through the call graph; every derived attribute is recomputed with the caller's scope flag before publication.",
+ "C14": STATELESS + " Also: the frame reaching convert_time_series_to_events carries the stream under the column 'id'.",
+ "C16": STATELESS + " Also: the stack columns the analysis selects operators by are published after the threads' trees were linked.",
+ "C19": " Also: the pickled classes (CPNode, CPEdge, _CPGraphData) use default pickling - a hook that drops state is a violation.",
+ "C20": " Also: the rank update sets the rank field and creates the distributedInfo block only when it is absent.",
+}
+for _k, _v in EXTRA.items():
+    CLAIMS[_k] = (CLAIMS[_k][0], CLAIMS[_k][1] + _v, CLAIMS[_k][2])
+
 REASON_WIP = "checker under construction in this session (see DESIGN.md section 3); not claimed until its check is committed"
 
 
@@ -119,7 +141,7 @@ def main():
                      "kind_free_text": "repository-specific static analysis over Python ast: program database, def-use/agreement rules, symbolic column-term evaluator for pandas pipelines, finite-domain abstract interpreter (decision tables), effect/alias analysis"}],
         "checks": checks,
         "not_applicable": na,
-        "notes": "All checks are static (ast only; hta is never imported or run). exit 0 pass, 1 VIOLATION, 2 ANALYSIS-ERROR (construct not understood / anchor vanished / instance floor missed). Repairs of genuine defects are the five fix: commits in /repo listed in known_findings.json.",
+        "notes": "All checks are static (ast only; hta is never imported or run). exit 0 pass, 1 VIOLATION, 2 ANALYSIS-ERROR (construct not understood / anchor vanished / instance floor missed). Repairs of genuine defects are the six fix: commits in /repo listed in known_findings.json.",
     }
     json.dump(man, open(os.path.join(HERE, "MANIFEST.json"), "w"), indent=1)
     print(f"checks={len(checks)} not_applicable={len(na)}")
